@@ -153,6 +153,14 @@ def popPending (c : Cfg) (resolve : Str → Res) (inc : Bool) (pending : List St
     | .ok [] => if c.guarded then .ok none else .error .popEmpty
     | .ok (x :: rest) => .ok (some (x, rest))
 
+/-- the queue emptied call by call: `popPending` (one `__next__` each) until it has nothing to pop;
+    `Drains c resolve inc q out` = the calls return the items `out`, in this order -/
+inductive Drains (c : Cfg) (resolve : Str → Res) (inc : Bool) : List Str → List Str → Prop
+  | done {q : List Str} : popPending c resolve inc q = .ok none → Drains c resolve inc q []
+  | step {q : List Str} {x : Str} {rest out : List Str} :
+      popPending c resolve inc q = .ok (some (x, rest)) → Drains c resolve inc rest out →
+      Drains c resolve inc q (x :: out)
+
 /-- the loop of `__next__` and what follows it, from the physical line `lines.head` on -/
 def readOn (c : Cfg) (resolve : Str → Res) (m : Marks) : RS → List Str → Except IErr (Option (Str × St))
   | _, [] => .ok none                                  -- `next(self.reader)` raises StopIteration
